@@ -1595,6 +1595,57 @@ def normalise_return_temps(fn, ref_locals: Optional[Set[str]] = None) -> int:
     return int(done > 0)
 
 
+def normalise_single_use_temps(fn, ref_locals: Optional[Set[str]] = None) -> int:
+    """`tmp = E` directly followed by a simple statement that uses `tmp` exactly once, `tmp` occurring nowhere else in the function and
+    unknown to the reference function  ->  the statement with E in place of tmp (in place; repeated until nothing changes).  Naming an
+    argument just before the call that takes it is the same computation; rules read the nested form they were confirmed on."""
+    if ref_locals is None:
+        return 0
+    done = 0
+    for _ in range(4):
+        counts: Dict[str, int] = {}
+        stores: Dict[str, int] = {}
+        for n in ast.walk(fn.node):
+            if isinstance(n, ast.Name):
+                counts[n.id] = counts.get(n.id, 0) + 1
+                if isinstance(n.ctx, (ast.Store, ast.Del)):
+                    stores[n.id] = stores.get(n.id, 0) + 1
+        changed = False
+        for x in ast.walk(fn.node):
+            for fld in ('body', 'orelse', 'finalbody'):
+                b = getattr(x, fld, None)
+                if not (isinstance(b, list) and b and isinstance(b[0], ast.stmt)):
+                    continue
+                i = 0
+                while i + 1 < len(b):
+                    a, nx = b[i], b[i + 1]
+                    if isinstance(a, ast.Assign) and len(a.targets) == 1 and isinstance(a.targets[0], ast.Name) \
+                            and isinstance(nx, (ast.Assign, ast.AugAssign, ast.AnnAssign, ast.Expr, ast.Return)):
+                        nm = a.targets[0].id
+                        uses = [z for z in ast.walk(nx) if isinstance(z, ast.Name) and z.id == nm and isinstance(z.ctx, ast.Load)]
+                        if nm not in ref_locals and nm not in fn.params and counts.get(nm, 0) == 2 and stores.get(nm, 0) == 1 and len(uses) == 1 \
+                                and not any(isinstance(z, ast.Name) and z.id == nm for z in ast.walk(a.value)) \
+                                and not any(isinstance(z, (ast.Lambda, ast.ListComp, ast.SetComp, ast.DictComp, ast.GeneratorExp)) and
+                                            any(u is uses[0] for u in ast.walk(z)) for z in ast.walk(nx)):
+                            val = a.value
+
+                            class S(ast.NodeTransformer):
+                                def visit_Name(self, n_):
+                                    return ast.copy_location(val, n_) if n_ is uses[0] else n_
+                            b[i + 1] = S().visit(nx)
+                            del b[i]
+                            counts[nm] = 0
+                            done += 1
+                            changed = True
+                            continue
+                    i += 1
+        if not changed:
+            break
+    if done:
+        ast.fix_missing_locations(fn.node)
+    return int(done > 0)
+
+
 def normalise_else_after_exit(fn) -> int:
     """`if c: <block that always returns / raises> else: REST`  ->  `if c: <block>` followed by REST, in place (the early-exit form; an elif
     chain is a nested if in the else and is flattened the same way).  The two are the same control flow; the path rules and the recognisers
@@ -2505,6 +2556,7 @@ def flatten_model(model) -> Optional[Flattener]:
     for f in funcs:
         r_ = _shapes.get('%s::%s' % (f.path, f.qualname))
         fl.return_temps += normalise_return_temps(f, set(r_[1]) if r_ else None)
+        fl.return_temps += normalise_single_use_temps(f, set(r_[1]) if r_ else None)
     fl.else_after_exit = run(normalise_else_after_exit)
     fl.yoda = run(normalise_yoda)
     fl.negations = run(normalise_negations)
